@@ -15,7 +15,7 @@ fuzz_target!(|data: &[u8]| {
     let lim = gen::Limits { long: 1200, huge: 2400 };
     let cfgs = all_cfgs();
     for fmt in [Fmt::F64, Fmt::F32] {
-        let c = gen::mixed(fmt, &r, lim);
+        let c = gen::mixed_no_table(fmt, &r, lim);
         if let Err(f) = check_rounding(fmt, &c, &cfgs) {
             // check_rounding judges every configuration's result: a disagreement between
             // configurations necessarily shows up as a misrounding in at least one of them
